@@ -306,6 +306,83 @@ def rule_sonar_component(ctx, rep):
         raise AnalysisError("SonarLocation.from_json_location: no ':'-split of the component found (shape not understood)")
 
 
+READER_MODULES = ("codemodder.sarifs", "codemodder.semgrep", "codemodder.codeql", "core_codemods.sonar.api", "core_codemods.sonar.results",
+                  "core_codemods.defectdojo.api", "core_codemods.defectdojo.results", "core_codemods.semgrep.api", "codemodder.codemodder")
+
+
+def rule_every_input_read(ctx, rep):
+    rep.rule(
+        "R-EVERY-INPUT-READ",
+        "in the result readers and accumulation loops: (a) a loop that merges per-file / per-run findings into an accumulator (`acc |= x`, "
+        "`acc[k].append(x)`, add_result) neither breaks nor returns from inside (one empty or odd input must not end the reading of the "
+        "rest); (b) an exception handler that swallows silently (no re-raise, nothing logged at warning level or above) does not enclose a "
+        "whole loop over runs / files / findings -- the error of one element would silently drop all that follow it",
+        min_instances=3,
+    )
+    n = 0
+    for fn in ctx.prog.live_functions():
+        if fn.module.name not in READER_MODULES:
+            continue
+        pm = ctx.parents(fn)
+        for lp in walk_no_nested(fn.node):
+            if not isinstance(lp, (ast.For, ast.AsyncFor)):
+                continue
+            merges = [x for x in ast.walk(lp) if (isinstance(x, ast.AugAssign) and isinstance(x.op, (ast.BitOr, ast.Add)))
+                      or (isinstance(x, ast.Call) and last_attr(x.func) in ("append", "extend", "add_result", "update", "setdefault"))]
+            if not merges:
+                continue
+            n += 1
+            # (a) early exits that belong to this loop
+            def own_exits(stmts):
+                out = []
+                for st in stmts:
+                    if isinstance(st, (ast.Break, ast.Return)):
+                        out.append(st)
+                    elif isinstance(st, (ast.For, ast.While, ast.FunctionDef, ast.AsyncFunctionDef, ast.ClassDef)):
+                        # a nested loop's break is its own; a return inside it still leaves the outer loop
+                        out += [x for x in ast.walk(st) if isinstance(x, ast.Return)] if isinstance(st, (ast.For, ast.While)) else []
+                    else:
+                        for field in ("body", "orelse", "finalbody"):
+                            sub = getattr(st, field, None)
+                            if isinstance(sub, list) and sub and isinstance(sub[0], ast.stmt):
+                                out += own_exits(sub)
+                        if isinstance(st, ast.Try):
+                            for h in st.handlers:
+                                out += own_exits(h.body)
+                        if isinstance(st, ast.Match):
+                            for c in st.cases:
+                                out += own_exits(c.body)
+                return out
+
+            exits = own_exits(lp.body)
+            rep.check("R-EVERY-INPUT-READ", fn.qname, fn.loc(exits[0]) if exits else fn.loc(lp), not exits, f"loop over {unparse(lp.iter)[:30]}:no-early-exit",
+                      f"the loop over `{unparse(lp.iter)[:40]}` that accumulates findings can be left early (`{unparse(exits[0])[:30] if exits else ''}`): "
+                      "the inputs after that point are never read")
+            # (b) swallowing handler around the whole loop
+            cur = pm.get(id(lp))
+            encl = None
+            while cur is not None and cur is not fn.node:
+                if isinstance(cur, ast.Try) and any(x is lp for st in cur.body for x in ast.walk(st)):
+                    # silent: neither re-raised nor reported at warning level or above (a reader that gives up on a whole
+                    # unparseable file and says so loudly is a stated policy, not a silent loss)
+                    swallowing = [
+                        h for h in cur.handlers
+                        if not any(isinstance(x, ast.Raise) for st in h.body for x in ast.walk(st))
+                        and not any(isinstance(x, ast.Call) and last_attr(x.func) in ("exception", "error", "warning", "warn", "critical") for st in h.body for x in ast.walk(st))
+                    ]
+                    if swallowing:
+                        encl = (cur, swallowing[0])
+                        break
+                if isinstance(cur, (ast.For, ast.While)):
+                    break  # a try around an *outer* loop's body is per outer element
+                cur = pm.get(id(cur))
+            rep.check("R-EVERY-INPUT-READ", fn.qname, fn.loc(encl[0]) if encl else fn.loc(lp), encl is None, f"loop over {unparse(lp.iter)[:30]}:handler-scope",
+                      f"`except {unparse(encl[1].type) if encl and encl[1].type is not None else ''}` swallows errors around the whole loop over `{unparse(lp.iter)[:40]}`: "
+                      "one element the reader cannot handle ends the loop and every later element is silently dropped")
+    if n < 3:
+        raise AnalysisError(f"only {n} accumulating loops found in the result readers")
+
+
 def check(ctx, rep):
     rep.explanation = (
         "The operator each accumulation loop actually dispatches to is resolved through the ResultSet MRO (including the "
@@ -319,4 +396,5 @@ def check(ctx, rep):
     rule_add_all_locations(ctx, rep)
     rule_merge_no_alias(ctx, rep)
     rule_sonar_component(ctx, rep)
+    rule_every_input_read(ctx, rep)
     rep.not_covered += ["equality of parsed findings with a reference extraction for arbitrary documents", "SARIF tool detection per run"]
